@@ -356,9 +356,15 @@ func driverMain() int {
 	if len(tot.Samples) == 0 {
 		cov["samples"] = []string{"(no execution completed)"}
 	}
+	assumptions := append([]string{
+		"go1.26.8 testing/synctest: quiescence detection and virtual clock",
+		"overlay instrumentation and sync/atomic shims preserve the semantics of the code under test (pinned suite passes on the instrumented, inert build)",
+		"memconn is a faithful model of a grpc-go stream for the operations the library uses",
+		"the code under test is data-race free, so that a step (one thread between two scheduling points) is deterministic; replay divergence is reported as a harness error, never as a violation",
+	}, p.Assumptions...)
 	ev := map[string]any{
 		"property_id": id, "tier": tier, "seed": seed, "level": p.Level, "coverage": cov,
-		"assumptions": p.Assumptions, "wall_s": time.Since(start).Seconds(), "violations": len(real),
+		"assumptions": assumptions, "wall_s": time.Since(start).Seconds(), "violations": len(real),
 	}
 	b, _ := json.MarshalIndent(ev, "", " ")
 	_ = os.MkdirAll(filepath.Join(verifDir(), "evidence"), 0o755)
